@@ -1,5 +1,7 @@
 mod common;
 mod c18;
+mod c17;
+mod canon;
 
 use common::Args;
 
@@ -9,6 +11,7 @@ fn main() {
         eprintln!("usage: kpverif <property> [--tier quick|thorough] [--seed N] [--report path] [--replay path]");
         std::process::exit(2);
     }
+    #[allow(unused_mut)]
     let mut args = Args {
         prop: argv[1].clone(),
         tier: "quick".into(),
@@ -37,6 +40,7 @@ fn main() {
     }
     match args.prop.as_str() {
         "C18" => c18::run(&args),
+        "C17" => c17::run(&args),
         p => { eprintln!("unknown property {}", p); std::process::exit(2); }
     }
 }
